@@ -319,7 +319,7 @@ def gen_case(rng, op):
 
 def _plate_names(rng, k):
     """k distinct plate names; some collide in their first 17 characters when written into a narrow buffer"""
-    style = rng.choice(["pl", "generated", "mixed"])
+    style = rng.choice(["pl", "generated", "generated", "generated", "mixed"])   # smoothers mostly run on generated plates
     if style == "pl":
         return ["pl%d" % i for i in rng.sample(range(0, 40), k)]
     if style == "generated":
